@@ -562,6 +562,9 @@ func SetIOHook(f func(site string, n uint64)) { ioHook = f }
 func ArmIO(on bool) { ioArmed = on }
 
 //go:norace
+func IOArmed() bool { return ioArmed }
+
+//go:norace
 func IOCount() uint64 { return ioCtr }
 
 // SetIOOnly makes I/O points call the hook although the gates and the
